@@ -39,7 +39,7 @@ def cases(draw):
     if draw(st.integers(0, 4)):
       ops.append(['connect_ok', d])
   for _ in range(draw(st.integers(3, 40))):
-    k = draw(st.integers(0, 23))
+    k = draw(st.integers(0, 24))
     d = draw(st.integers(0, nd - 1))
     if k <= 6:
       ops.append(['dp'])
@@ -59,6 +59,8 @@ def cases(draw):
       ops.append(['resume', d])
     elif k <= 22:
       ops.append(['advance', draw(st.sampled_from([0.0001, 0.0001, 0.001, 1.0, 6.0, 30.0]))])
+    elif k == 23 and draw(st.booleans()):
+      ops.append(['record'])
     else:
       ops.append(['stop'])
   return {'ndest': nd, 'protocol': draw(st.sampled_from(['pickle', 'line'])),
@@ -103,8 +105,11 @@ def judge(ctx, case, t):
     drops = sum(1 for a in arr if a[1] == 'normal' and not a[2])
     name = ('%s:%d:%s' % d).replace('.', '_')
     counted = t.stats.get('destinations.%s.fullQueueDrops' % name, 0)
-    if counted != drops:
-      ctx.fail('C07:drops-not-counted', 'destination %r: %d datapoints discarded, fullQueueDrops=%d' % (d, drops, counted), case, 'counted')
+    rep = sum(sum(v) for k, v in t.reported.items() if k == 'destinations.%s.fullQueueDrops' % name)
+    if counted + rep != drops + t.own_drops[d]:
+      ctx.fail('C07:drops-not-counted', 'destination %r: %d datapoints discarded (%d of them the relay\'s own periodic metrics), '
+               'fullQueueDrops: %d reported by %d instrumentation runs + %d in the running counter' % (
+                 d, drops + t.own_drops[d], t.own_drops[d], rep, t.records, counted), case, 'counted')
       return False
     w = t.written[d]
     if len(set(w)) != len(w):
@@ -215,6 +220,11 @@ def classify(case, t):
     classes.append('stop')
     if any(t.stop_snapshot[d] for d in t.dests):
       classes.append('stop with data queued')
+      nt = True
+  if t.records:
+    classes.append('instrumentation timer fired')
+    if any(t.own_drops.values()):
+      classes.append('own periodic metric discarded at a full queue')
       nt = True
   if t.priority_ids:
     classes.append('self-metric')
